@@ -421,7 +421,48 @@ def r6(F, rep):
                  "the extended-Lagrangian code (reflecting-boundary flags and the boundaries they refer to)")
 
 
+def r7(F, rep):
+    rep.rule("C17-R7", "what the repeated-step branch reads is maintained at every step: a member of the variable that is read inside "
+                       "the branch guarded by step_relative() == prev_timestep (other than the saved prev_* copies) is assigned in "
+                       "end_of_step() under no feature test except the extended-Lagrangian one -- the jump test compares the "
+                       "current value with the value of the previous step, whatever output options are on")
+    from .rules_c03 import all_guards
+    g = F.one(PROPS)
+    res = X.const_locals(g)
+    reads = set()
+    for m in g.walk():
+        if m["k"] != "MemberExpr" or m.get("dk") != "Field" or not X.key(m, g).startswith("this.") or X.key(m, g).count(".") != 1:
+            continue
+        nm = m.get("n") or ""
+        if nm.startswith("prev_") or nm in ("x", "x_ext", "v_ext", "width"):
+            continue
+        gs = all_guards(g, m)
+        if any("prev_timestep" in X.key(cn, g, res) for cn, pol in gs if pol):
+            # only operands that are READ (not the targets of the restores)
+            par = g.parent(m)
+            if par is not None and par["k"] in ("BinaryOperator", "CXXOperatorCallExpr") and par.get("op") == "=" and X.strip((X.kids(par) if par["k"] == "BinaryOperator" else X.call_args(par))[0]) is m:
+                continue
+            reads.add(nm)
+    if not reads:
+        raise AnalysisBroken("C17-R7: the repeated-step branch reads no member besides the saved copies (x_old expected)")
+    e = F.one("colvar::end_of_step")
+    for nm in sorted(reads):
+        ws = [w for w, op in writes_to(e, nm)]
+        ok = False
+        why = "is never assigned in end_of_step()"
+        for w in ws:
+            feats = [X.re_strip(X.key(cn, e)) for cn, pol in all_guards(e, w) if "is_enabled" in X.key(cn, e) and "f_cv_extended_Lagrangian" not in X.key(cn, e)]
+            if not feats:
+                ok = True
+            else:
+                why = "is assigned in end_of_step() only under %s" % feats
+        rep.add("C17-R7", "end_of_step|%s" % nm, e.loc(ws[0]) if ws else e.loc(), "`%s` (read by the repeated-step branch) %s" % (
+            nm, "is refreshed at the end of every step" if ok else why), ok,
+            detail="with a stale value the repeated step is taken for a discrete jump (or the reverse) and the coordinate is re-initialised instead of reverted", func=e.q)
+
+
 def run(F, rep, tier):
+    r7(F, rep)
     r1(F, rep)
     r2(F, rep)
     r3(F, rep)
